@@ -183,6 +183,14 @@ func tokenSource(L ssa.Value, seen map[ssa.Value]bool) (fields map[string]bool, 
 				walkText(x.Common().Args[0], d+1)
 				return
 			}
+			// a choosing helper of the repository: every result is one of
+			// its own parameters (prefer the cached lower-case text, else the raw one)
+			if idx := c03ChoosesAmongParams(x.Common().StaticCallee()); len(idx) > 0 {
+				for _, i := range idx {
+					walkText(x.Common().Args[i], d+1)
+				}
+				return
+			}
 			ok = false
 		default:
 			ok = false
@@ -329,6 +337,33 @@ func c03IndexCommand(c *Ctx, sx *symx.Ctx, F []string) {
 			tagList[tag] = l.Over
 		})
 	}
+	// the helper form: counts.add(tokens, func(e *fieldTF) *int { return &e.<field> })
+	// where add ranges over its list parameter and increments *pick(&entry)
+	// between entry := m[tok] and m[tok] = entry
+	ssau.ForEachInstr(fn, false, func(in ssa.Instruction) {
+		call, ok := in.(*ssa.Call)
+		if !ok {
+			return
+		}
+		cal := call.Common().StaticCallee()
+		if cal == nil || cal.Parent() != nil || cal.Blocks == nil || !c.P.IsRepoFunc(cal) {
+			return
+		}
+		li, pi := c03CountsThroughPick(cal)
+		if li < 0 {
+			return
+		}
+		args := call.Common().Args
+		tag := c03PickedField(args[pi])
+		if tag == "" {
+			r.Bad("O-2", fk+"#pick-function", c.P.Pos(call.Pos()), "the field-selecting function passed to the counting helper does not return the address of one fieldTF field of its argument")
+			return
+		}
+		if prev, dup := tagList[tag]; dup && prev != args[li] {
+			r.Bad("O-2", fk+"#tag:"+tag+":once", c.P.Pos(call.Pos()), "two different token lists are counted under the field "+tag)
+		}
+		tagList[tag] = args[li]
+	})
 	// lengths literal
 	lenList := map[string]ssa.Value{}
 	ssau.ForEachInstr(fn, false, func(in ssa.Instruction) {
@@ -453,14 +488,32 @@ func c03TermBM25F(c *Ctx, sx *symx.Ctx, F []string) {
 	})
 	seen := map[string]bool{}
 	docID := fn.Params[1]
+	// one contribution per call, or — for a call inside a loop over a literal
+	// table of rows {tf.f, dl.f, avg.f, w.f, b.f} — one per row of that table
+	type contrib struct {
+		call  *ssa.Call
+		args  []ssa.Value
+		guard func(x ssa.Value) bool // x is this contribution's term count
+	}
+	var contribs []contrib
 	for _, call := range calls {
 		a := call.Common().Args // recv, tf, dl, avgdl, w, b
 		if len(a) != 6 {
 			continue
 		}
+		if rows, tfField := c03TableRows(a[1:]); rows != nil {
+			for _, row := range rows {
+				contribs = append(contribs, contrib{call, row, tfField})
+			}
+			continue
+		}
+		contribs = append(contribs, contrib{call, a[1:], nil})
+	}
+	for _, ct := range contribs {
+		call := ct.call
 		var names []string
 		shapeOK := true
-		for i, v := range a[1:] {
+		for i, v := range ct.args {
 			path := selPath(v, 0)
 			n := ""
 			if len(path) > 0 {
@@ -504,6 +557,12 @@ func c03TermBM25F(c *Ctx, sx *symx.Ctx, F []string) {
 				continue
 			}
 			n, _ := lastSelector(x)
+			if ct.guard != nil {
+				n = ""
+				if ct.guard(x) {
+					n = f // the row's own count
+				}
+			}
 			if k, isC := ssau.ConstInt(y); isC && k == 0 && n == f && op == token.GTR {
 				cut[[2]int{iff.Block().Index, 0}] = true
 			}
@@ -589,7 +648,7 @@ func c03TermBM25F(c *Ctx, sx *symx.Ctx, F []string) {
 			})
 		}
 	}
-	r.Check(len(calls) == len(F), "O-2", fk+"#one-call-per-field", c.P.Pos(fn.Pos()), fmt.Sprintf("%d contributions for %d fields", len(calls), len(F)), fmt.Sprintf("%d fieldBM25 contributions for %d fields: a field is counted twice or dropped", len(calls), len(F)))
+	r.Check(len(contribs) == len(F), "O-2", fk+"#one-call-per-field", c.P.Pos(fn.Pos()), fmt.Sprintf("%d contributions for %d fields", len(contribs), len(F)), fmt.Sprintf("%d fieldBM25 contributions for %d fields: a field is counted twice or dropped", len(contribs), len(F)))
 	// the return value sums all contributions
 	sum := map[*ssa.Call]bool{}
 	var walk func(v ssa.Value, d int)
@@ -649,14 +708,26 @@ func c03Build(c *Ctx, sx *symx.Ctx, F []string) {
 	if !r.Anchor("O-3", fk, fn != nil) {
 		return
 	}
-	f := sx.Of(fn)
-	loops := ssau.RangeLoops(fn)
+	// the builder may be split into steps (constructor, per-document step,
+	// averages): functions that only the builder (or another such step) calls
+	// belong to it, and a parameter of a step called from one place stands
+	// for the argument passed there
+	fam := c03BuilderFamily(c, fn)
+	res := fam.resolve
+	each := func(visit func(in ssa.Instruction)) {
+		for _, g := range fam.list {
+			ssau.ForEachInstr(g, false, visit)
+		}
+	}
 	// the per-document loop
 	var docLoop *ssau.RangeLoop
-	for i := range loops {
-		if loops[i].Over != nil && !loops[i].IsMap {
-			if _, ok := ssau.IsFieldLoad(loops[i].Over, dbType, "Commands"); ok {
-				docLoop = &loops[i]
+	for _, g := range fam.list {
+		gl := ssau.RangeLoops(g)
+		for i := range gl {
+			if gl[i].Over != nil && !gl[i].IsMap {
+				if _, ok := ssau.IsFieldLoad(res(gl[i].Over), dbType, "Commands"); ok {
+					docLoop = &gl[i]
+				}
 			}
 		}
 	}
@@ -665,25 +736,27 @@ func c03Build(c *Ctx, sx *symx.Ctx, F []string) {
 		return
 	}
 	var ic *ssa.Call
-	for _, call := range callsTo(fn, dbPkg+".indexCommand") {
-		ic = call
+	for _, g := range fam.list {
+		for _, call := range callsTo(g, dbPkg+".indexCommand") {
+			ic = call
+		}
 	}
 	if ic == nil {
 		r.Bad("O-3", fk+"#indexCommand-call", c.P.Pos(fn.Pos()), "indexCommand is not called")
 		return
 	}
 	argOK := false
-	if ia, ok := ic.Common().Args[0].(*ssa.IndexAddr); ok && ia.Index == docLoop.Index {
-		if _, ok := ssau.IsFieldLoad(ia.X, dbType, "Commands"); ok {
+	if ia, ok := res(ic.Common().Args[0]).(*ssa.IndexAddr); ok && res(ia.Index) == docLoop.Index {
+		if _, ok := ssau.IsFieldLoad(res(ia.X), dbType, "Commands"); ok {
 			argOK = true
 		}
 	}
-	r.Check(argOK && docLoop.InLoop(ic.Block()), "O-3", fk+"#indexes-command-i", c.P.Pos(ic.Pos()), "indexCommand(&db.Commands[i]) with the loop index", "indexCommand is not applied to &db.Commands[i] of the per-document loop")
+	r.Check(argOK && fam.inLoop(docLoop, ic), "O-3", fk+"#indexes-command-i", c.P.Pos(ic.Pos()), "indexCommand(&db.Commands[i]) with the loop index", "indexCommand is not applied to &db.Commands[i] of the per-document loop")
 	lens, tf := resultValue(ic, 0), resultValue(ic, 1)
 	// stores of lens and tf at index i
 	var perDoc ssa.Value
 	lensOK, tfOK := false, false
-	ssau.ForEachInstr(fn, false, func(in ssa.Instruction) {
+	each(func(in ssa.Instruction) {
 		st, ok := in.(*ssa.Store)
 		if !ok {
 			return
@@ -694,10 +767,10 @@ func c03Build(c *Ctx, sx *symx.Ctx, F []string) {
 		}
 		if viaCell(st.Val, lens) {
 			_, isDL := ssau.IsFieldLoad(ia.X, dbPkg+".universalIndex", "docLens")
-			lensOK = isDL && ia.Index == docLoop.Index
+			lensOK = isDL && res(ia.Index) == docLoop.Index
 		}
 		if viaCell(st.Val, tf) {
-			tfOK = ia.Index == docLoop.Index
+			tfOK = res(ia.Index) == docLoop.Index
 			perDoc = ia.X
 		}
 	})
@@ -709,11 +782,11 @@ func c03Build(c *Ctx, sx *symx.Ctx, F []string) {
 	r.Check(tfOK, "O-3", fk+"#perDoc-at-i", c.P.Pos(ic.Pos()), "perDoc[i] = term frequencies of command i (or consumed in the same iteration)", "the term map returned for command i is not stored at index i of the per-document table")
 	// N = len(db.Commands)
 	nOK := false
-	ssau.ForEachInstr(fn, false, func(in ssa.Instruction) {
+	each(func(in ssa.Instruction) {
 		if st, ok := in.(*ssa.Store); ok {
 			if fa, ok := ssau.IsFieldAddr(st.Addr, dbPkg+".universalIndex", "N"); ok && fa != nil {
-				if lc, ok := st.Val.(*ssa.Call); ok && ssau.CallName(lc) == "builtin.len" {
-					if _, ok := ssau.IsFieldLoad(lc.Common().Args[0], dbType, "Commands"); ok {
+				if lc, ok := res(st.Val).(*ssa.Call); ok && ssau.CallName(lc) == "builtin.len" {
+					if _, ok := ssau.IsFieldLoad(res(lc.Common().Args[0]), dbType, "Commands"); ok {
 						nOK = true
 					}
 				}
@@ -723,6 +796,9 @@ func c03Build(c *Ctx, sx *symx.Ctx, F []string) {
 	r.Check(nOK, "O-3", fk+"#N-is-len-commands", c.P.Pos(fn.Pos()), "idx.N = len(db.Commands)", "idx.N is not len(db.Commands): idf and the staleness test use a wrong document count")
 
 	// O-4: df once per key of this document's map
+	stepFn := ic.Parent()
+	f := sx.Of(stepFn)
+	loops := ssau.RangeLoops(stepFn)
 	var dfLoop *ssau.RangeLoop
 	for i := range loops {
 		if loops[i].IsMap && loops[i].Over == tf {
@@ -766,7 +842,7 @@ func c03Build(c *Ctx, sx *symx.Ctx, F []string) {
 		r.Check(ok && m.Get("df++").ExactlyOnce() && m.Get("df=?").Never(), "O-4", fk+"#df-once-per-term", c.P.Pos(dfLoop.Body.Instrs[0].Pos()), "df[term]++ exactly once per distinct term of the document", fmt.Sprintf("per distinct term of a document df is incremented %v times (other writes %v)", m.Get("df++"), m.Get("df=?")))
 		// and nowhere else
 		other := 0
-		ssau.ForEachInstr(fn, false, func(in ssa.Instruction) {
+		each(func(in ssa.Instruction) {
 			if mu, ok := in.(*ssa.MapUpdate); ok {
 				if _, ok := ssau.IsFieldLoad(mu.Map, dbPkg+".universalIndex", "df"); ok && !dfLoop.InLoop(mu.Block()) {
 					other++
@@ -779,7 +855,7 @@ func c03Build(c *Ctx, sx *symx.Ctx, F []string) {
 	// sums and averages per field
 	for _, fld := range F {
 		sumOK, avgOK := false, false
-		ssau.ForEachInstr(fn, false, func(in ssa.Instruction) {
+		each(func(in ssa.Instruction) {
 			st, ok := in.(*ssa.Store)
 			if !ok {
 				return
@@ -827,7 +903,7 @@ func c03Build(c *Ctx, sx *symx.Ctx, F []string) {
 		pLoop = docLoop
 	}
 	if pLoop != nil {
-		ssau.ForEachInstr(fn, false, func(in ssa.Instruction) {
+		each(func(in ssa.Instruction) {
 			mu, ok := in.(*ssa.MapUpdate)
 			if !ok {
 				return
@@ -856,7 +932,7 @@ func c03Build(c *Ctx, sx *symx.Ctx, F []string) {
 						if st, ok := r2.(*ssa.Store); ok && st.Addr == ssa.Value(fa) {
 							switch ssau.FieldName(fa) {
 							case "docID":
-								docOK = st.Val == pLoop.Index
+								docOK = res(st.Val) == pLoop.Index
 							case "tf":
 								if ex, ok := st.Val.(*ssa.Extract); ok && ex.Index == 2 {
 									tfOK2 = true
@@ -929,6 +1005,10 @@ func c03WhoWrites(c *Ctx) {
 	build := c.P.Func("internal/database", "Database", "BuildUniversalIndex")
 	uix := dbPkg + ".universalIndex"
 	inside, n := 0, 0
+	fam := &builderFamily{in: map[*ssa.Function]bool{}}
+	if build != nil {
+		fam = c03BuilderFamily(c, build) // the builder and the steps only it calls
+	}
 	for _, fn := range shippedFuncs(c) {
 		root := fn
 		for root.Parent() != nil {
@@ -956,7 +1036,7 @@ func c03WhoWrites(c *Ctx) {
 			if what == "" {
 				return
 			}
-			if root == build {
+			if fam.in[root] {
 				inside++
 				return
 			}
@@ -1035,9 +1115,42 @@ func c03Scoring(c *Ctx, sx *symx.Ctx) {
 	cs := c.P.Func("internal/database", "Database", "calculateInitialScores")
 	if r.Anchor("O-3", "database.(*Database).calculateInitialScores", cs != nil) {
 		fk2 := "database.(*Database).calculateInitialScores"
-		f := sx.Of(cs)
+		// the lookups are in the scoring function or in a per-term step it calls
+		steps := []*ssa.Function{cs}
+		stepSite := map[*ssa.Function]*ssa.Call{}
+		for i := 0; i < len(steps) && i < 12; i++ {
+			ssau.ForEachInstr(steps[i], true, func(in ssa.Instruction) {
+				if call, ok := in.(*ssa.Call); ok {
+					if g := call.Common().StaticCallee(); g != nil && g.Blocks != nil && g.Parent() == nil && c.P.IsRepoFunc(g) && g.Pkg == cs.Pkg {
+						if _, dup := stepSite[g]; dup {
+							stepSite[g] = nil // more than one call site: parameters are not resolved
+							return
+						}
+						stepSite[g] = call
+						steps = append(steps, g)
+					}
+				}
+			})
+		}
 		var post, df *ssa.Lookup
-		ssau.ForEachInstr(cs, false, func(in ssa.Instruction) {
+		var lookFn *ssa.Function
+		for _, g := range steps {
+			ssau.ForEachInstr(g, false, func(in ssa.Instruction) {
+				if lk, ok := in.(*ssa.Lookup); ok && post == nil {
+					if _, ok := ssau.IsFieldLoad(lk.X, dbPkg+".universalIndex", "postings"); ok {
+						lookFn = g
+					}
+				}
+			})
+			if lookFn != nil {
+				break
+			}
+		}
+		if lookFn == nil {
+			lookFn = cs
+		}
+		f := sx.Of(lookFn)
+		ssau.ForEachInstr(lookFn, false, func(in ssa.Instruction) {
 			lk, ok := in.(*ssa.Lookup)
 			if !ok {
 				return
@@ -1060,9 +1173,21 @@ func c03Scoring(c *Ctx, sx *symx.Ctx) {
 		// the term is an element of the terms parameter
 		if good {
 			good = false
+			term := post.Index
+			for i := 0; i < 4; i++ {
+				par, ok := term.(*ssa.Parameter)
+				if !ok || par.Parent() == cs || stepSite[par.Parent()] == nil {
+					break
+				}
+				for k, q := range par.Parent().Params {
+					if q == par && k < len(stepSite[par.Parent()].Common().Args) {
+						term = stepSite[par.Parent()].Common().Args[k]
+					}
+				}
+			}
 			for _, l := range ssau.RangeLoops(cs) {
 				if (l.Over == ssa.Value(cs.Params[1]) || ssau.ParamOf(l.Over) == cs.Params[1]) && !l.IsMap {
-					if u, ok := post.Index.(*ssa.UnOp); ok {
+					if u, ok := term.(*ssa.UnOp); ok {
 						if ia, ok := u.X.(*ssa.IndexAddr); ok && ia.Index == l.Index {
 							good = true
 						}
@@ -1303,16 +1428,33 @@ func c03TermCap(c *Ctx, sx *symx.Ctx) {
 		// preserveCount = Min(P, len(terms)), P >= 4
 		pOK := false
 		var pv int64
-		ssau.ForEachInstr(fn, false, func(in ssa.Instruction) {
-			if call, ok := in.(*ssa.Call); ok && (strings.HasSuffix(ssau.CallName(call), "utils.Min") || ssau.CallName(call) == "builtin.min") {
-				for _, a := range call.Common().Args {
-					if k, ok := ssau.ConstInt(a); ok {
-						pv = k
-						pOK = k >= 4
+		// in selectTopTerms itself or in the capping step it delegates to
+		for _, g := range withSteps(c, fn, 2) {
+			ssau.ForEachInstr(g, false, func(in ssa.Instruction) {
+				if call, ok := in.(*ssa.Call); ok && !pOK && (strings.HasSuffix(ssau.CallName(call), "utils.Min") || ssau.CallName(call) == "builtin.min") {
+					// min(P, len(<the term list>))
+					hasLen := false
+					for _, a := range call.Common().Args {
+						if lc, ok := a.(*ssa.Call); ok && ssau.CallName(lc) == "builtin.len" {
+							if sl, ok := lc.Common().Args[0].Type().Underlying().(*types.Slice); ok {
+								if b, ok := sl.Elem().Underlying().(*types.Basic); ok && b.Kind() == types.String {
+									hasLen = true
+								}
+							}
+						}
+					}
+					if !hasLen && g != fn {
+						return
+					}
+					for _, a := range call.Common().Args {
+						if k, ok := ssau.ConstInt(a); ok {
+							pv = k
+							pOK = k >= 4
+						}
 					}
 				}
-			}
-		})
+			})
+		}
 		r.Check(pOK, "O-6", fk+"#protected-prefix-at-least-4", c.P.Pos(fn.Pos()), fmt.Sprintf("the first %d terms are protected", pv), fmt.Sprintf("the protected prefix is %d terms, the property states at least 4", pv))
 	}
 	su := c.P.Func("internal/database", "Database", "SearchUniversal")
@@ -1386,4 +1528,399 @@ func c03IdfTable(c *Ctx, name string) bool {
 		})
 	}
 	return okAll && n > 0
+}
+
+// c03ChoosesAmongParams: fn is a repository function each of whose results is
+// one of its own parameters; returns the indices of the parameters returned.
+func c03ChoosesAmongParams(fn *ssa.Function) []int {
+	if fn == nil || fn.Blocks == nil || fn.Signature.Results().Len() != 1 || !strings.HasPrefix(ssau.FuncName(fn), load.ModulePath) {
+		return nil
+	}
+	set := map[int]bool{}
+	ok := true
+	var walk func(v ssa.Value, d int)
+	walk = func(v ssa.Value, d int) {
+		if d > 4 {
+			ok = false
+			return
+		}
+		switch x := v.(type) {
+		case *ssa.Parameter:
+			for i, p := range fn.Params {
+				if p == x {
+					set[i] = true
+				}
+			}
+		case *ssa.Phi:
+			for _, e := range x.Edges {
+				walk(e, d+1)
+			}
+		default:
+			ok = false
+		}
+	}
+	for _, ret := range ssau.ReturnsOf(fn) {
+		walk(ssau.ResultValue(ret, 0), 0)
+	}
+	if !ok {
+		return nil
+	}
+	var out []int
+	for i := range set {
+		out = append(out, i)
+	}
+	sort.Ints(out)
+	return out
+}
+
+// c03CountsThroughPick: fn ranges over its slice parameter #li and, per
+// element tok, does entry := m[tok]; *pick(&entry)++; m[tok] = entry with pick
+// its function parameter #pi. (-1, -1) when fn is not of that form.
+func c03CountsThroughPick(fn *ssa.Function) (li, pi int) {
+	li, pi = -1, -1
+	paramIdx := func(v ssa.Value) int {
+		for i, p := range fn.Params {
+			if ssa.Value(p) == v {
+				return i
+			}
+		}
+		return -1
+	}
+	for _, l := range ssau.RangeLoops(fn) {
+		if l.IsMap || l.Over == nil || paramIdx(l.Over) < 0 {
+			continue
+		}
+		isElem := func(v ssa.Value) bool {
+			u, ok := v.(*ssa.UnOp)
+			if !ok {
+				return false
+			}
+			ia, ok := u.X.(*ssa.IndexAddr)
+			return ok && ia.X == l.Over && ia.Index == l.Index
+		}
+		ssau.ForEachInstr(fn, false, func(in ssa.Instruction) {
+			st, ok := in.(*ssa.Store)
+			if !ok || !l.InLoop(st.Block()) {
+				return
+			}
+			pc, ok := st.Addr.(*ssa.Call)
+			if !ok || pc.Common().IsInvoke() || paramIdx(pc.Common().Value) < 0 || len(pc.Common().Args) != 1 {
+				return
+			}
+			cell, ok := pc.Common().Args[0].(*ssa.Alloc)
+			if !ok || ssau.NamedOf(cell.Type()) != dbPkg+".fieldTF" {
+				return
+			}
+			bo, ok := st.Val.(*ssa.BinOp)
+			if !ok || bo.Op != token.ADD {
+				return
+			}
+			if one, ok := ssau.ConstInt(bo.Y); !ok || one != 1 {
+				return
+			}
+			if ld, ok := bo.X.(*ssa.UnOp); !ok || ld.X != ssa.Value(pc) {
+				return
+			}
+			readOK, writeOK := false, false
+			for _, ref := range *cell.Referrers() {
+				if s2, ok := ref.(*ssa.Store); ok && s2.Addr == ssa.Value(cell) {
+					if lk, ok := s2.Val.(*ssa.Lookup); ok && isElem(lk.Index) {
+						readOK = true
+					}
+				}
+				if ld, ok := ref.(*ssa.UnOp); ok {
+					for _, r2 := range *ld.Referrers() {
+						if mu, ok := r2.(*ssa.MapUpdate); ok && mu.Value == ssa.Value(ld) && isElem(mu.Key) && l.InLoop(mu.Block()) {
+							writeOK = true
+						}
+					}
+				}
+			}
+			if readOK && writeOK {
+				li, pi = paramIdx(l.Over), paramIdx(pc.Common().Value)
+			}
+		})
+	}
+	return
+}
+
+// c03PickedField: v is a function (literal) whose every result is the
+// address of one field of its first parameter; the field's name.
+func c03PickedField(v ssa.Value) string {
+	var g *ssa.Function
+	switch x := v.(type) {
+	case *ssa.Function:
+		g = x
+	case *ssa.MakeClosure:
+		g, _ = x.Fn.(*ssa.Function)
+	}
+	if g == nil || g.Blocks == nil || len(g.Params) != 1 {
+		return ""
+	}
+	name := ""
+	for _, ret := range ssau.ReturnsOf(g) {
+		fa, ok := ssau.ResultValue(ret, 0).(*ssa.FieldAddr)
+		if !ok || fa.X != ssa.Value(g.Params[0]) || ssau.NamedOf(fa.X.Type()) != dbPkg+".fieldTF" {
+			return ""
+		}
+		if name != "" && name != ssau.FieldName(fa) {
+			return ""
+		}
+		name = ssau.FieldName(fa)
+	}
+	return name
+}
+
+// builderFamily: the index builder and the steps it is split into.
+type builderFamily struct {
+	list []*ssa.Function
+	in   map[*ssa.Function]bool
+	site map[*ssa.Function]*ssa.Call // the single call site of a step, when it has exactly one
+}
+
+// c03BuilderFamily: build, plus every function of the database package
+// that is called from the family and from nowhere else in shipped code.
+func c03BuilderFamily(c *Ctx, build *ssa.Function) *builderFamily {
+	bf := &builderFamily{in: map[*ssa.Function]bool{build: true}, site: map[*ssa.Function]*ssa.Call{}}
+	bf.list = []*ssa.Function{build}
+	cg := c.P.CallGraph()
+	for changed := true; changed; {
+		changed = false
+		for _, m := range append([]*ssa.Function(nil), bf.list...) {
+			ssau.ForEachInstr(m, true, func(in ssa.Instruction) {
+				call, ok := in.(*ssa.Call)
+				if !ok {
+					return
+				}
+				g := call.Common().StaticCallee()
+				if g == nil || bf.in[g] || g.Parent() != nil || g.Blocks == nil || !c.P.IsRepoFunc(g) || g.Pkg != build.Pkg {
+					return
+				}
+				if obj := g.Object(); obj != nil && obj.Exported() {
+					return // callable from outside the package
+				}
+				node := cg.Nodes[g]
+				if node == nil {
+					return
+				}
+				var sites []*ssa.Call
+				for _, e := range node.In {
+					if !isShipped(c, e.Caller.Func) {
+						continue
+					}
+					root := e.Caller.Func
+					for root.Parent() != nil {
+						root = root.Parent()
+					}
+					if !bf.in[root] {
+						return
+					}
+					if cs, ok := e.Site.(*ssa.Call); ok {
+						sites = append(sites, cs)
+					} else {
+						return // go/defer: not a plain step
+					}
+				}
+				if len(sites) == 0 {
+					return
+				}
+				bf.in[g] = true
+				bf.list = append(bf.list, g)
+				if len(sites) == 1 {
+					bf.site[g] = sites[0]
+				}
+				changed = true
+			})
+		}
+	}
+	return bf
+}
+
+// resolve: a parameter of a step with one call site is the argument there.
+func (bf *builderFamily) resolve(v ssa.Value) ssa.Value {
+	for i := 0; i < 6; i++ {
+		p, ok := v.(*ssa.Parameter)
+		if !ok {
+			return v
+		}
+		g := p.Parent()
+		site := bf.site[g]
+		if site == nil {
+			return v
+		}
+		idx := -1
+		for k, q := range g.Params {
+			if q == p {
+				idx = k
+			}
+		}
+		if idx < 0 || idx >= len(site.Common().Args) {
+			return v
+		}
+		v = site.Common().Args[idx]
+	}
+	return v
+}
+
+// inLoop: the instruction runs inside l, directly or through the single
+// call sites of the steps that contain it.
+func (bf *builderFamily) inLoop(l *ssau.RangeLoop, in ssa.Instruction) bool {
+	for i := 0; i < 6 && in != nil; i++ {
+		if l.InLoop(in.Block()) {
+			return true
+		}
+		site := bf.site[in.Parent()]
+		if site == nil {
+			return false
+		}
+		in = site
+	}
+	return false
+}
+
+// c03TableRows: every argument is (a conversion of) a field of the element
+// variable of a range over a local array literal of structs. Returns, per
+// row of the literal, the values the row stores in those fields (in argument
+// order), and a predicate recognising a read of the element field the first
+// argument reads. nil when the arguments are not of that form, or when a row
+// or a field of a row is not a single plain store.
+func c03TableRows(args []ssa.Value) ([][]ssa.Value, func(ssa.Value) bool) {
+	var elem *ssa.Alloc
+	var fields []int
+	elemField := func(v ssa.Value) (*ssa.Alloc, int, bool) {
+		if cv, ok := v.(*ssa.Convert); ok {
+			v = cv.X
+		}
+		u, ok := v.(*ssa.UnOp)
+		if !ok || u.Op != token.MUL {
+			return nil, 0, false
+		}
+		fa, ok := u.X.(*ssa.FieldAddr)
+		if !ok {
+			return nil, 0, false
+		}
+		al, ok := fa.X.(*ssa.Alloc)
+		return al, fa.Field, ok
+	}
+	for _, a := range args {
+		al, f, ok := elemField(a)
+		if !ok || (elem != nil && al != elem) {
+			return nil, nil
+		}
+		elem = al
+		fields = append(fields, f)
+	}
+	if elem == nil {
+		return nil, nil
+	}
+	// elem = table[i], table = *literal
+	var table *ssa.Alloc
+	for _, ref := range *elem.Referrers() {
+		st, ok := ref.(*ssa.Store)
+		if !ok || st.Addr != ssa.Value(elem) {
+			continue
+		}
+		ix, ok := st.Val.(*ssa.Index)
+		if !ok || table != nil {
+			return nil, nil
+		}
+		ld, ok := ix.X.(*ssa.UnOp)
+		if !ok {
+			return nil, nil
+		}
+		table, _ = ld.X.(*ssa.Alloc)
+		if table == nil {
+			return nil, nil
+		}
+	}
+	if table == nil {
+		return nil, nil
+	}
+	arr, ok := table.Type().Underlying().(*types.Pointer).Elem().Underlying().(*types.Array)
+	if !ok {
+		return nil, nil
+	}
+	rows := make([][]ssa.Value, arr.Len())
+	singleStore := func(addr ssa.Value) ssa.Value {
+		var val ssa.Value
+		n := 0
+		for _, ref := range *addr.(interface{ Referrers() *[]ssa.Instruction }).Referrers() {
+			if st, ok := ref.(*ssa.Store); ok && st.Addr == addr {
+				n++
+				val = st.Val
+			}
+		}
+		if n != 1 {
+			return nil
+		}
+		return val
+	}
+	for _, ref := range *table.Referrers() {
+		ia, ok := ref.(*ssa.IndexAddr)
+		if !ok {
+			continue
+		}
+		k, isC := ssau.ConstInt(ia.Index)
+		if !isC || k < 0 || k >= arr.Len() || rows[k] != nil {
+			return nil, nil
+		}
+		rv := singleStore(ia)
+		ld, ok := rv.(*ssa.UnOp)
+		if !ok {
+			return nil, nil
+		}
+		rowCell, ok := ld.X.(*ssa.Alloc)
+		if !ok {
+			return nil, nil
+		}
+		byField := map[int]ssa.Value{}
+		for _, r2 := range *rowCell.Referrers() {
+			if fa, ok := r2.(*ssa.FieldAddr); ok {
+				if v := singleStore(fa); v != nil {
+					byField[fa.Field] = v
+				}
+			}
+		}
+		row := make([]ssa.Value, len(fields))
+		for i, f := range fields {
+			if byField[f] == nil {
+				return nil, nil
+			}
+			row[i] = byField[f]
+		}
+		rows[k] = row
+	}
+	for _, row := range rows {
+		if row == nil {
+			return nil, nil
+		}
+	}
+	return rows, func(x ssa.Value) bool {
+		al, f, ok := elemField(x)
+		return ok && al == elem && f == fields[0]
+	}
+}
+
+// withSteps: fn and the repository functions of its package it calls
+// statically, to the given depth (the steps a function is split into).
+func withSteps(c *Ctx, fn *ssa.Function, depth int) []*ssa.Function {
+	out := []*ssa.Function{fn}
+	seen := map[*ssa.Function]bool{fn: true}
+	frontier := []*ssa.Function{fn}
+	for d := 0; d < depth; d++ {
+		var next []*ssa.Function
+		for _, m := range frontier {
+			ssau.ForEachInstr(m, true, func(in ssa.Instruction) {
+				if call, ok := in.(*ssa.Call); ok {
+					if g := call.Common().StaticCallee(); g != nil && !seen[g] && g.Blocks != nil && g.Parent() == nil && c.P.IsRepoFunc(g) && g.Pkg == fn.Pkg {
+						seen[g] = true
+						out = append(out, g)
+						next = append(next, g)
+					}
+				}
+			})
+		}
+		frontier = next
+	}
+	return out
 }
